@@ -7,6 +7,11 @@ proof fn axiom_codec_file_hdr(h: FileDataSequenceHeader) ensures enc_file_hdr(h)
 #[verifier::external_body]
 proof fn axiom_codec_cas_hdr(h: CASChunkSequenceHeader) ensures enc_cas_hdr(h).len() == 48, dec_cas_hdr(enc_cas_hdr(h)) == h {}
 
+// the bookend records: all-ones hash, every other field Default (no entries, no flags)
+uninterp spec fn file_bookend_hdr() -> FileDataSequenceHeader;
+uninterp spec fn cas_bookend_hdr() -> CASChunkSequenceHeader;
+#[verifier::external_body]
+proof fn axiom_bookends() ensures file_bookend_hdr().file_hash == bookend_hash(), file_bookend_hdr().num_entries == 0, file_bookend_hdr().file_flags == 0, cas_bookend_hdr().cas_hash == bookend_hash(), cas_bookend_hdr().num_entries == 0 {}
 impl FileDataSequenceHeader {
     // `serialize::<Vec<u8>>`: appends the 48-byte encoding
     #[verifier::external_body]
@@ -15,7 +20,7 @@ impl FileDataSequenceHeader {
     { unimplemented!() }
     // all-ones hash, every other field Default (num_entries = 0, flags = 0)
     #[verifier::external_body]
-    fn bookend() -> (r: Self) ensures r.file_hash == bookend_hash(), r.num_entries == 0, r.file_flags == 0 { unimplemented!() }
+    fn bookend() -> (r: Self) ensures r == file_bookend_hdr() { unimplemented!() }
 }
 impl CASChunkSequenceHeader {
     #[verifier::external_body]
@@ -23,7 +28,7 @@ impl CASChunkSequenceHeader {
         ensures r matches Ok(n) ==> n == 48 && final(writer)@ == old(writer)@ + enc_cas_hdr(*self)
     { unimplemented!() }
     #[verifier::external_body]
-    fn bookend() -> (r: Self) ensures r.cas_hash == bookend_hash(), r.num_entries == 0 { unimplemented!() }
+    fn bookend() -> (r: Self) ensures r == cas_bookend_hdr() { unimplemented!() }
 }
 // R7 outline of `copy(&mut reader.take(n), &mut buf)` (std::io::copy from a `Take`): appends the next min(n, remaining) bytes of the
 // stream to the buffer and returns how many — a short stream is NOT an error here
@@ -35,18 +40,64 @@ fn vx_copy_take(reader: &mut VxSR, n: u64, out: &mut Vec<u8>) -> (r: Result<u64>
             && final(reader).pos@ == old(reader).pos@ + c,
 { unimplemented!() }
 
-// the callbacks handed to the streaming functions (instance `FileFunc = &mut VxFileCb`): the log of the views they were called with
-struct VxFileCb { log: Ghost<Seq<MDBFileInfoView>> }
+// the callbacks handed to the streaming functions (instance `FileFunc = &mut VxFileCb`): a callback that records the views it is
+// called with (an ordinary, verified implementation — nothing assumed)
+struct VxFileCb { log: Vec<MDBFileInfoView> }
 impl VxFileCb {
-    #[verifier::external_body]
     fn call(&mut self, v: MDBFileInfoView) -> (r: Result<()>)
         ensures r is Ok ==> final(self).log@ == old(self).log@.push(v)
-    { unimplemented!() }
+    { self.log.push(v); Ok(()) }
 }
-struct VxCasCb { log: Ghost<Seq<MDBCASInfoView>> }
+struct VxCasCb { log: Vec<MDBCASInfoView> }
 impl VxCasCb {
-    #[verifier::external_body]
     fn call(&mut self, v: MDBCASInfoView) -> (r: Result<()>)
         ensures r is Ok ==> final(self).log@ == old(self).log@.push(v)
+    { self.log.push(v); Ok(()) }
+}
+
+// decoding a record from an in-memory slice (`X::deserialize(&mut Cursor::new(slice))`): fails only when the slice is shorter than
+// the 48-byte record
+#[verifier::external_body]
+fn vx_file_hdr_from_slice(b: &[u8]) -> (r: Result<FileDataSequenceHeader>)
+    ensures b@.len() >= 48 ==> r is Ok, r matches Ok(h) ==> b@.len() >= 48 && h == dec_file_hdr(b@.subrange(0, 48))
+{ unimplemented!() }
+#[verifier::external_body]
+fn vx_cas_hdr_from_slice(b: &[u8]) -> (r: Result<CASChunkSequenceHeader>)
+    ensures b@.len() >= 48 ==> r is Ok, r matches Ok(h) ==> b@.len() >= 48 && h == dec_cas_hdr(b@.subrange(0, 48))
+{ unimplemented!() }
+#[verifier::external_body]
+fn vx_file_entry_from_slice(b: &[u8]) -> (r: Result<FileDataSequenceEntry>)
+    ensures b@.len() >= 48 ==> r is Ok, r matches Ok(h) ==> b@.len() >= 48 && h == dec_file_entry(b@.subrange(0, 48))
+{ unimplemented!() }
+impl std::fmt::Debug for MDBShardError {
+    #[verifier::external_body]
+    fn fmt(&self, f: &mut std::fmt::Formatter<'_>) -> std::fmt::Result { unimplemented!() }
+}
+uninterp spec fn enc_shard_hdr() -> Seq<u8>;
+uninterp spec fn enc_footer(f: MDBShardFileFooter) -> Seq<u8>;
+#[verifier::external_body]
+proof fn axiom_shard_hdr_len() ensures enc_shard_hdr().len() == 48 {}
+impl MDBShardFileHeader {
+    #[verifier::external_body]
+    fn default() -> (r: Self) { unimplemented!() }
+    // writes tag + version + footer size = 48 bytes (the same bytes for every shard)
+    #[verifier::external_body]
+    fn serialize(&self, writer: &mut Vec<u8>) -> (r: Result<usize>)
+        ensures r matches Ok(n) ==> n == 48 && final(writer)@ == old(writer)@ + enc_shard_hdr()
     { unimplemented!() }
 }
+impl Default for MDBShardFileFooter {
+    #[verifier::external_body]
+    fn default() -> (r: Self) { unimplemented!() }
+}
+impl MDBShardFileFooter {
+    #[verifier::external_body]
+    fn serialize(&self, writer: &mut Vec<u8>) -> (r: Result<usize>)
+        ensures r is Ok ==> final(writer)@ == old(writer)@ + enc_footer(*self)
+    { unimplemented!() }
+}
+// R7 outline of `copy(&mut Cursor::new(&self.data), writer)`: appends the whole buffer
+#[verifier::external_body]
+fn vx_copy_all(data: &Arc<[u8]>, w: &mut Vec<u8>) -> (r: Result<u64>)
+    ensures r is Ok ==> final(w)@ == old(w)@ + data@
+{ unimplemented!() }
